@@ -17,7 +17,7 @@ RULE = ("gross_range_test: every fail span (ordered and reversed pairs over the 
         "None on either/both sides x 4 inclusivity settings x float/int ndarray, pandas Series, datetime64, list+dtype "
         "carriers; plus seeded long series.  distinct = (function, span-relation class, carrier, set of flags "
         "produced or rejection); trivial = all GOOD.")
-ASSUMPTIONS = ["valid_range_test with a reversed span and integer dtype with a None bound are outside the claimed domain",
+ASSUMPTIONS = ["valid_range_test on an integer dtype with a None bound is outside the claimed domain",
                "values and bounds are small dyadic numbers so comparisons are exact"]
 EXHAUSTIVE_ALL = False
 
@@ -129,6 +129,29 @@ def run(ctx) -> None:
                     ctx.count("valid_range.calls")
                     ctx.case(f"vr|hairline|{L}")
 
+    # integer-typed observations against limits that fall between integers (counts vs. a 0.5 limit): judged as numbers
+    if ctx.shard == ctx.nshards - 1:
+        ivals = list(range(-3, 5))
+        for fail in [(-1.5, 2.5), (0.5, 2.5), (-2.5, -0.5), (2.5, -1.5), (-0.5, 0.5), (0.25, 3.75)]:
+            flo, fhi = sorted(fail)
+            for suspect in [None, (flo + 1, fhi - 1), (flo + 0.5, fhi - 0.5), (fhi - 1, flo + 1)]:
+                if suspect is not None and not (flo <= min(suspect) <= max(suspect) <= fhi):
+                    continue
+                for cname, mk in (("int64", lambda v: np.array(v, dtype=np.int64)), ("int8", lambda v: np.array(v, dtype=np.int8)),
+                                  ("list-int", lambda v: [int(k) for k in v]),
+                                  ("uint8", lambda v: np.array([k for k in v if k >= 0], dtype=np.uint8)),
+                                  ("masked-int32", lambda v: np.ma.MaskedArray(np.array(v, dtype=np.int32), mask=[k == 1 for k in v]))):
+                    inp = mk(ivals)
+                    lv = [k for k in ivals if k >= 0] if cname == "uint8" else [None if k == 1 else k for k in ivals] if cname == "masked-int32" else ivals
+                    kw = {"inp": inp, "fail_span": list(fail)}
+                    if suspect is not None:
+                        kw["suspect_span"] = list(suspect)
+                    client.expect(ctx, "C03", "qartod.gross_range_test", kw, lambda: models.gross_range(lv, fail, suspect),
+                                  logical={"values": lv, "fail_span": fail, "suspect_span": suspect, "carrier": cname}, hist="gross_range")
+                    ctx.count("gross_range.calls")
+                    ctx.count("gross_range.integer_data_fractional_limit_calls")
+                    ctx.case(f"gr|int-data|{cname}|{relation(fail, suspect)}")
+
     # malformed spans are rejected (isfixedlength)
     if ctx.shard == 0:
         for bad in ([1], [1, 2, 3], (), "ab"):
@@ -143,7 +166,8 @@ def run(ctx) -> None:
                                                                   "case": {which: bad}, "observed": o.brief()})
 
     # ---- valid_range_test
-    spans = [(lo, hi) for lo in [None, *GRID] for hi in [None, *GRID] if lo is None or hi is None or lo <= hi]
+    # (a span whose lower bound lies above its upper bound contains nothing: every present value is outside it)
+    spans = [(lo, hi) for lo in [None, *GRID] for hi in [None, *GRID] if lo is None or hi is None or lo <= hi or (lo - hi) in (1, 3)]
     incl = list(itertools.product([True, False], [True, False]))
     t0 = np.datetime64("2021-03-01T00:00:00", "s")
     j = 0
